@@ -54,6 +54,7 @@ class Result:
 
 _SAN_RE = re.compile(r'ERROR: (AddressSanitizer|ThreadSanitizer|LeakSanitizer|MemorySanitizer): ([A-Za-z0-9_-]+)')
 _UB_RE = re.compile(r'^(\S+?):(\d+):(\d+): runtime error: (.*)$', re.M)
+_VG_RE = re.compile(r'^==\d+== (Invalid read|Invalid write|Conditional jump or move depends on uninitialised|Use of uninitialised value|Syscall param[^\n]*uninitialised|Invalid free|Mismatched free|Source and destination overlap|Jump to the invalid address|Process terminating with default action of signal \d+)', re.M)
 _FRAME_RE = re.compile(r'^\s*#\d+ (?:0x[0-9a-f]+ in )?(\S+) (\S+)', re.M)
 
 
@@ -83,6 +84,17 @@ def crash_key(stderr, rc, exe=None):
         if kind == 'SEGV' or kind == 'FPE' or kind == 'BUS' or kind == 'ILL':
             kind = 'signal-' + kind
         return 'san:%s:%s:%s' % (ms.group(1).replace('Sanitizer', '').lower(), kind, func or 'unknown')
+    mv = _VG_RE.search(stderr)
+    if mv:   # valgrind memcheck report: kind + first frame inside the repository
+        kind = mv.group(1).strip().lower()
+        kind = 'uninitialised-value' if 'uninitialised' in kind else kind.replace(' ', '-')
+        vf = None
+        for m4 in re.finditer(r'^==\d+==\s+(?:at|by) 0x[0-9A-Fa-f]+: (\S+) \(([^)]*)\)', stderr[mv.start():], re.M):
+            if build.REPO + '/' in m4.group(2) or m4.group(2).startswith('in '):
+                if build.REPO + '/' in m4.group(2):
+                    vf = m4.group(1)
+                    break
+        return 'valgrind:%s:%s' % (kind, vf or 'unknown')
     if 'WARNING: ThreadSanitizer: ' in stderr:
         m2 = re.search(r'WARNING: ThreadSanitizer: ([^(\n]+)', stderr)
         return 'san:thread:%s:%s' % (m2.group(1).strip().replace(' ', '-'), func or 'unknown')
@@ -115,9 +127,10 @@ class Runner:
     def _one(self, exe, args, env, casefile, wall=None):
         e = dict(os.environ)
         e.update({'VERIF_CASEFILE': casefile, 'VERIF_REPO': build.REPO})
-        e.update(env or {})
+        e.update({k: v for k, v in (env or {}).items() if k != '__wrapper__'})
+        wrapper = (env or {}).get('__wrapper__', '').split()     # e.g. valgrind memcheck in front of the harness
         try:
-            p = subprocess.run([exe] + args, stdout=subprocess.PIPE, stderr=subprocess.PIPE, env=e, timeout=wall or self.wall_timeout, errors='replace')
+            p = subprocess.run(wrapper + [exe] + args, stdout=subprocess.PIPE, stderr=subprocess.PIPE, env=e, timeout=wall or self.wall_timeout, errors='replace')
             return p.returncode, p.stdout, p.stderr
         except subprocess.TimeoutExpired as te:
             return None, (te.stdout or b'').decode(errors='replace') if isinstance(te.stdout, bytes) else (te.stdout or ''), ''
@@ -208,11 +221,26 @@ class Runner:
                 f.result()
 
 
+VALGRIND = 'valgrind -q --tool=memcheck --error-exitcode=98 --exit-on-first-error=yes --fullpath-after= --undef-value-errors=yes --track-origins=no --num-callers=12'
+
+
+def valgrind_stage(R, res, spec, base_args, ncases, first, env=None, slow=60, wall=None):
+    """run ncases of a harness built WITHOUT sanitizers (variant 'val': gcc -O1 -g, assembly loops on) under valgrind memcheck:
+    definedness of every value a branch / address depends on + addressability, which ASan and guard pages do not see.
+    A memcheck report stops the process (exit 98) and becomes a violation key valgrind:<kind>:<first frame in the repository>."""
+    kw = dict(spec[2]) if len(spec) > 2 else {}
+    exe = build.build_harness(spec[0], 'val', **kw)
+    venv = dict(env or {}, __wrapper__=VALGRIND, VERIF_SLOW=str(slow))
+    before = res.cases_done
+    R.run_sharded(res, exe, base_args, ncases, env=venv, label=spec[0] + '/val', variant='val', first=first, wall=wall or (10800 if R.thorough else 1800))
+    return res.cases_done - before
+
+
 def _first_report_lines(err):
     lines = [l for l in err.split('\n') if l.strip()]
     keep = []
     for l in lines:
-        if 'ERROR:' in l or 'runtime error' in l or 'WARNING: ThreadSanitizer' in l or re.match(r'\s*#[0-5] ', l):
+        if 'ERROR:' in l or 'runtime error' in l or 'WARNING: ThreadSanitizer' in l or re.match(r'\s*#[0-5] ', l) or re.match(r'==\d+== \S', l):
             keep.append(l.strip())
         if len(keep) >= 8:
             break
